@@ -216,7 +216,7 @@ pub fn run(run: &Run) {
         40 => gens::pick(&pools().general),
         15 => gens::gchar(),
     ];
-      (gens::padded(prop_oneof![9 => vec(ch.clone(), 0..=24), 1 => vec(ch, 0..=200)].prop_map(gens::s_of).boxed()), 0..2usize)
+      (prop_oneof![5 => gens::padded(prop_oneof![9 => vec(ch.clone(), 0..=24), 1 => vec(ch, 0..=200)].prop_map(gens::s_of).boxed()), 1 => gens::ascii_words()], 0..2usize)
     };
     run.prop("random", run.pick(3_000_000, 100_000_000), mk, |(s, pi), l| check(profs[*pi], s, l));
     // short enumerated strings behind / in front of long pads
